@@ -230,7 +230,7 @@ fn decode(src: &mut Source) -> Case {
     Case { emitters, owner_delay: src.below(3), owner_into_inner: src.byte() < 176 }
 }
 
-fn case_sched(bytes: &[u8], sched_bytes: &[u8], ctx: &mut Ctx) -> Result<(), Fail> {
+pub fn case_sched(bytes: &[u8], sched_bytes: &[u8], ctx: &mut Ctx) -> Result<(), Fail> {
     let mut src = Source::new(bytes);
     let case = decode(&mut src);
     ctx.case(&(&case, sched_bytes));
@@ -242,7 +242,7 @@ fn scenarios() -> Vec<Case> {
     vec![Case { emitters: vec![vec![EOp::Counter, EOp::Describe]], owner_delay: 0, owner_into_inner: true }, Case { emitters: vec![vec![EOp::Gauge, EOp::Counter]], owner_delay: 0, owner_into_inner: false }]
 }
 
-fn case_exhaustive_replay(bytes: &[u8], _s: &[u8], ctx: &mut Ctx) -> Result<(), Fail> {
+pub fn case_exhaustive_replay(bytes: &[u8], _s: &[u8], ctx: &mut Ctx) -> Result<(), Fail> {
     let sc = scenarios();
     let case = &sc[(*bytes.first().unwrap_or(&0) as usize).min(sc.len() - 1)];
     let sch: Vec<(u64, usize)> = bytes[1.min(bytes.len())..].chunks(2).filter(|c| c.len() == 2).map(|c| (c[0] as u64, c[1] as usize)).collect();
